@@ -151,6 +151,11 @@ class World(object):
             if structure(d) != st0:
                 bad.append('serialising a tree changed its structure (section objects / subsections lists)')
             self.trees.append(new)
+        elif k == 'E':
+            # a fresh empty dictionary of the caller's (stored as given: the setter keeps a reference)
+            t, p, kk = op[1:].split('.')
+            d = self.callers.setdefault(int(kk), {})
+            section_at(self.trees[int(t)], p).meta = d
         elif k == 'R':
             t, p = op[1:].split('.')
             self.n += 1
@@ -214,8 +219,12 @@ def gen_ops(rng, n):
                 op = 'C%d' % t
             elif r < 0.36 and d.changes:
                 op = 'F%d.%d' % (t, rng.randrange(len(d.changes)))
-            elif r < 0.50:
+            elif r < 0.46:
                 op = 'M%d.%s.%d' % (t, rng.choice(w.paths(t)), rng.randrange(6))
+            elif r < 0.50:
+                # an EMPTY dictionary, a new one every time (caller numbers from 100 on are never reused)
+                w.n_empty = getattr(w, 'n_empty', 100) + 1
+                op = 'E%d.%s.%d' % (t, rng.choice(w.paths(t)), w.n_empty)
             elif r < 0.56:
                 # a preamble text (immutable) on the tree or one of its changes
                 op = 'R%d.%s' % (t, rng.choice([p for p in w.paths(t) if 'f' not in p]))
@@ -254,6 +263,8 @@ class Spec(object):
                 return 'P' + op[1:]
             if op[0] == 'R':
                 return 'O' + op[1:].split('.')[0]
+            if op[0] == 'E':
+                return 'M' + op[1:]
             return op
         return 'heap ' + ' '.join(tr(op) for op in case)
 
